@@ -419,3 +419,16 @@ pub fn parallel<T: Send + 'static>(threads: usize, f: impl Fn(usize) -> T + Send
         .collect();
     hs.into_iter().map(|h| h.join().unwrap()).collect()
 }
+
+// ---------------------------------------------------------------- patience
+/// Eventually-observations have generous deadlines (seconds against expected milliseconds).  When the code under test
+/// is broken in a way that makes EVERY scenario run into its deadline, a driver with thousands of scenarios would take
+/// hours; after a handful of missed deadlines the point is made and the driver stops generating further scenarios
+/// (what it has recorded is judged as usual).
+static MISSED_DEADLINES: std::sync::atomic::AtomicU32 = std::sync::atomic::AtomicU32::new(0);
+pub fn missed_deadline() {
+    MISSED_DEADLINES.fetch_add(1, Ordering::SeqCst);
+}
+pub fn give_up() -> bool {
+    MISSED_DEADLINES.load(Ordering::SeqCst) >= 12
+}
